@@ -77,6 +77,8 @@ type entState struct {
 type c11Case struct {
 	Ents  []entState
 	Strat int
+	// Future (real-file variant only): every modification time lies decades ahead of the wall clock
+	Future bool `json:",omitempty"`
 }
 
 var artNames = []string{"absent", "cert+key", "cert+CSR", "key-only", "cert-only"}
@@ -402,6 +404,7 @@ func TestC11(t *testing.T) {
 			}
 			c.Ents = append(c.Ents, st)
 		}
+		c.Future = rapid.IntRange(0, 3).Draw(t, "future-mtimes") == 0
 		return c
 	}
 	core.Rapid(r, "failing-run", r.Pick(150, 6000), func(t *rapid.T) c11Fail {
@@ -446,6 +449,7 @@ func checkC11Real(r *core.Runner, c c11Case) *core.Failure {
 		w.Ents = append(w.Ents, e)
 	}
 	d := w.Dir()
+	d.Future = c.Future
 	if res := core.Run(d, core.FlagAll); !res.OK() {
 		return core.Failf("C11/setup-failed", "%s", res.String())
 	}
